@@ -1,5 +1,6 @@
 import IwModel.Lemmas.WalIdem
 import IwModel.Props.C05
+import IwModel.Lemmas.WalWriter
 /-! # C04 — with WAL, a kill at any instant loses no synced work and tears no operation
 
 Theorems over the executable model `IwModel.Wal` of `src/kv/iwal.c`.  A checkpoint and the recovery at open
@@ -97,5 +98,257 @@ example : recover C05.exCfg 1 C05.exLog (replayAux C05.exCfg 0 2 C05.exLog 0 tru
     (by rw [C05.exLog_walk]; simp) (by decide)
     (by intro p r h; rw [C05.exLog_walk] at h; simp at h; rcases h with ⟨_, rfl⟩ | ⟨_, rfl⟩ | ⟨_, rfl⟩ <;> simp)
     (by decide)
+
+/-! ## traces of the writer (`Model/WalWriter.lean`): what a kill at any point leaves, and what the next open makes of it -/
+
+open IwModel.WalWriter in
+/-- **A completed checkpoint leaves the main file equal to the replay of the log, and an empty log.**  For every state
+`s` a valid trace reaches, and for both kinds of checkpoint (`noFix = false`: `_checkpoint_exl` proper; `noFix = true`:
+the one `_onresize` forces): `p` is the state in which `_rollforward_exl` starts (savepoint record appended unless
+`noFix`, buffer flushed, log synced).  The roll-forward of the whole log over the main file succeeds and yields exactly
+the image the process was seeing; afterwards the main file is that image, log and buffer are empty. -/
+theorem checkpoint_preserves (c : WCfg) (hc : c.Ok) (m : Bytes) (tr : List Step) (hv : ValidTrace c (WalWriter.init m) tr)
+    (noFix : Bool) (ts : Nat) :
+    let s := run c (WalWriter.init m) tr
+    let p := ckptPrepare c s noFix ts
+    rollforward c.rd 0 0 p.log p.main = ⟨.ok, s.view⟩ ∧ p.main = s.main ∧
+    (checkpoint c s noFix ts).main = s.view ∧ (checkpoint c s noFix ts).view = s.view ∧
+    (checkpoint c s noFix ts).log = [] ∧ (checkpoint c s noFix ts).buf = [] := by
+  intro s p
+  obtain ⟨g, hi⟩ : ∃ g, Inv c s g := run_inv c hc tr _ _ (Inv_init c m) hv
+  cases noFix with
+  | true =>
+    obtain ⟨h1, _⟩ := flush_inv c hc s g hi
+    have r := flush_rest c s
+    have hb : (gflush c s.buf g).Lb = [] := gflush_Lb c s.buf g (fun hbuf => by have hd : Dec s.buf g.Lb := hi.w.bdec; rw [hbuf] at hd; exact Dec_nil hd)
+    obtain ⟨_, f1, f2, f3, f4, _, _, f7⟩ := ckptFinish_spec c _ _ (fsyncLog_inv c _ _ h1) hb
+    have hv' : (fsyncLog (flush c s)).view = s.view := r.2.1
+    have hbuf : (fsyncLog (flush c s)).buf = [] := flush_buf c s
+    have hm' : (fsyncLog (flush c s)).main = s.main := r.1
+    exact ⟨hv' ▸ f7, hm', hv' ▸ f1, hv' ▸ f3, f2, hbuf ▸ f4⟩
+  | false =>
+    have hi0 : Inv c { s with forceCp := false, forceSp := false } g := Inv_congr c s _ g hi rfl rfl rfl rfl rfl
+    obtain ⟨h1, ebuf, emain, eview, _, _, _⟩ := putSavepoint_spec c hc _ g ts hi0
+    obtain ⟨_, f1, f2, f3, f4, _, _, f7⟩ := ckptFinish_spec c _ _ (fsyncLog_inv c _ _ h1) rfl
+    have hv' : (fsyncLog (putSavepoint c { s with forceCp := false, forceSp := false } ts)).view = s.view := eview
+    have hbuf : (fsyncLog (putSavepoint c { s with forceCp := false, forceSp := false } ts)).buf = [] := ebuf
+    have hm' : (fsyncLog (putSavepoint c { s with forceCp := false, forceSp := false } ts)).main = s.main := emain
+    exact ⟨hv' ▸ f7, hm', hv' ▸ f1, hv' ▸ f3, f2, hbuf ▸ f4⟩
+
+open IwModel.WalWriter in
+/-- what recovery makes of the main file and a cut of the log, from the invariants -/
+theorem kill_core (c : WCfg) (s : St) (g : G) (base : Nat) (marks : List (Nat × Nat)) (hi : Inv c s g) (hm : InvM c s g base marks)
+    (n : Nat) (h1 : s.fsynced ≤ n) (h2 : n ≤ s.log.length) :
+    ∃ k img, s.dur ≤ k ∧ s.hist[k]? = some img ∧ WalWriter.recover c (killCut s n) = (.ok, img, []) ∧
+      (n = s.log.length → k = s.hist.length - 1) := by
+  obtain ⟨hw, hhead, hnoreset, _, hok⟩ := wf_facts hi
+  have hb := base_lt hm
+  have hklt : ∀ p k, (p, k) ∈ marks → k < s.hist.length := by
+    intro p k hp
+    obtain ⟨_, _, img, hi', _⟩ := hm.mark p k hp
+    by_cases hh : k < s.hist.length
+    · exact hh
+    · rw [List.getElem?_eq_none (by omega)] at hi'; simp at hi'
+  have hinside : ∀ p k, (p, k) ∈ marks → p + 12 ≤ s.log.length := by
+    intro p k hp
+    have := (mem_withPos_bounds _ _ _ _ (hm.mark p k hp).1).2
+    have := Inv_loglen hi
+    simp only [advOf] at *; omega
+  have hnosp0 : ∀ k, (0, k) ∉ marks := fun k hk => WfLog_no_sp0 hi.w.wf (hm.mark 0 k hk).1
+  rcases hhead with hnil | hsep
+  · -- empty log: nothing to recover, the main file is the base image
+    have hL : g.L = [] := by have hd : Dec s.log g.L := hi.w.wf.dec; rw [hnil] at hd; exact Dec_nil hd
+    have hnomark : ∀ p k, (p, k) ∉ marks := by
+      intro p k hp; have := (hm.mark p k hp).1; rw [hL] at this; simp [withPos] at this
+    refine ⟨base, s.main, ?_, hm.hbase, ?_, ?_⟩
+    · rcases hm.dur with hd | ⟨p, hp, _⟩
+      · omega
+      · exact absurd hp (hnomark _ _)
+    · simp [WalWriter.recover, killCut, hnil, Wal.recover, rollforward]
+    · intro _
+      by_cases hk : base < s.hist.length - 1
+      · obtain ⟨p, hp⟩ := hm.cover _ hk (by omega); exact absurd hp (hnomark _ _)
+      · omega
+  · have hclosed : C05.SegClosed s.log := by
+      intro p cr l sp hp hs hlt; rw [hw] at hp hs; exact hi.w.wf.closed p cr l sp hp hs hlt
+    obtain ⟨f, hf, hge, hrec⟩ := C05.recover_cut c.rd s.log s.main n h2 hsep hclosed hnoreset hok
+    by_cases hf0 : f = 0
+    · subst hf0
+      -- no savepoint record survived completely: no mark is durable, the image is the base image
+      have hnone : ∀ p k, (p, k) ∈ marks → p + 12 ≤ n → False := by
+        intro p k hp hle
+        have := hge p (by rw [hw]; exact (hm.mark p k hp).1) hle
+        have : p = 0 := by omega
+        subst this; exact hnosp0 k hp
+      refine ⟨base, s.main, ?_, hm.hbase, ?_, ?_⟩
+      · rcases hm.dur with hd | ⟨p, hp, hle⟩
+        · omega
+        · exact (hnone p _ hp (by omega)).elim
+      · simpa [WalWriter.recover, killCut, C05.stateAt] using hrec
+      · intro hn
+        by_cases hk : base < s.hist.length - 1
+        · obtain ⟨p, hp⟩ := hm.cover _ hk (by omega)
+          exact (hnone p _ hp (by have := hinside p _ hp; omega)).elim
+        · omega
+    · have hfm : (f, Rec.savepoint) ∈ walk s.log ∧ f + 12 ≤ n := by
+        rcases hf with h | h
+        · exact absurd h hf0
+        · exact h
+      obtain ⟨k, hk⟩ := hm.all f (by rw [← hw]; exact hfm.1)
+      obtain ⟨_, hbk, img, himg, hrun⟩ := hm.mark f k hk
+      have hge' : ∀ p k', (p, k') ∈ marks → p + 12 ≤ n → k' ≤ k := by
+        intro p k' hp hle
+        exact hm.mono p k' f k hp hk (hge p (by rw [hw]; exact (hm.mark p k' hp).1) hle)
+      refine ⟨k, img, ?_, himg, ?_, ?_⟩
+      · rcases hm.dur with hd | ⟨p, hp, hle⟩
+        · omega
+        · exact hge' p _ hp (by omega)
+      · have hst : C05.stateAt c.rd s.log s.main f = img := by
+          simp only [C05.stateAt, hf0, if_false]
+          rw [replay_of_Dec c.rd f g.L s.log s.main hi.w.wf.dec (Or.inr hsep), hrun]
+        simpa [WalWriter.recover, killCut, hst] using hrec
+      · intro hn
+        have hkl := hklt f k hk
+        by_cases hk' : base < s.hist.length - 1
+        · obtain ⟨p, hp⟩ := hm.cover _ hk' (by omega)
+          have := hge' p _ hp (by have := hinside p _ hp; omega)
+          omega
+        · omega
+
+
+open IwModel.WalWriter in
+/-- a kill while a regular checkpoint is storing the log's records: the next open completes it -/
+theorem applying_core (c : WCfg) (hc : c.Ok) (s : St) (g : G) (hi : Inv c s g) (ha : AllAbs g) (ts j : Nat) :
+    WalWriter.recover c (killApplying c (ckptPrepare c s false ts) j) = (.ok, s.view, []) := by
+  have hi0 : Inv c { s with forceCp := false, forceSp := false } g := Inv_congr c s _ g hi rfl rfl rfl rfl rfl
+  obtain ⟨h1, _, emain, eview, _, _, _⟩ := putSavepoint_spec c hc _ g ts hi0
+  have hp : ckptPrepare c s false ts = fsyncLog (putSavepoint c { s with forceCp := false, forceSp := false } ts) := rfl
+  have hip : Inv c (ckptPrepare c s false ts) (gsave c s.buf g ts) := by rw [hp]; exact fsyncLog_inv c _ _ h1
+  have hview : (ckptPrepare c s false ts).view = s.view := by rw [hp]; exact eview
+  obtain ⟨hw, hhead, hnoreset, _, hok⟩ := wf_facts hip
+  have hlen := Inv_loglen hip
+  rw [gsave_L, size_append] at hlen
+  simp only [size, advOf] at hlen
+  have hsep : (ckptPrepare c s false ts).log.headD 0 = WOP_SEP := by
+    rcases hhead with h | h
+    · rw [h] at hlen; simp at hlen
+    · exact h
+  have hclosed : C05.SegClosed (ckptPrepare c s false ts).log := by
+    intro p cr l sp hp' hs hlt; rw [hw] at hp' hs; exact hip.w.wf.closed p cr l sp hp' hs hlt
+  have hlast : (size (gsaveA c s.buf g ts), Rec.savepoint) ∈ walk (ckptPrepare c s false ts).log := by
+    rw [hw, gsave_L, withPos_append]; simp [withPos]
+  have habs : AbsoluteOnly (ckptPrepare c s false ts).log := by
+    intro p r hpr
+    rw [hw] at hpr
+    obtain ⟨y, hy, e⟩ := mem_withPos_item _ _ _ _ hpr
+    have := gsave_abs c s.buf g ts ha y (List.mem_append.mpr (Or.inl hy))
+    rw [e] at this; exact this
+  have key := checkpoint_kill_recovers c.rd _ (ckptPrepare c s false ts).main (size (gsaveA c s.buf g ts)) j hsep hclosed hnoreset hlast
+    (by omega) habs hok
+  have hrep : (replay c.rd 0 (ckptPrepare c s false ts).log (ckptPrepare c s false ts).main).main = s.view := by
+    rw [replay0_of_wf c.rd hip.w.wf]
+    have := hip.sem
+    rw [gsave_Lb, List.append_nil] at this
+    rw [this, hview]
+  rw [hrep] at key
+  exact key
+
+open IwModel.WalWriter in
+/-- **Trace-level crash theorem (partial: traces without `_onresize`).**
+
+Full-strength statement (does **not** hold, finding F26): *for every valid trace of writer steps and every kill point,
+the next open yields the main-file image as of some savepoint of the trace, not an earlier one than the last savepoint
+whose `fsync` of the log had completed.*  A resize step (`_onresize`: the `WBRESIZE` record, then
+`_checkpoint_exl(no_fixpoint = true)`) applies and truncates a log that holds records written after the last savepoint;
+what recovery then yields is the image *with* those records (`forced_checkpoint_exposes_unsaved` below), which is the
+image of no savepoint.  The theorem therefore carries the hypothesis `noForcedCheckpointInsideOp`.
+
+Proved.  Take any main file `m`, any valid trace `tr` without resize steps, `s` the state it reaches (every prefix of
+a valid trace is one, so this is *every* point between two steps), `hist` the images at the savepoints of the trace
+(initial image first), `dur` the index of the newest one whose record was in the file at an `fsync` of the log:
+
+1. the process dies, or power is lost, and the log file keeps any length `n` between what was `fsync`ed and what was
+   written (this covers a death *inside* a step: between the two `write`s of `_write_wl`, inside a `write`): the next
+   open succeeds, truncates the log and yields `hist[k]` for some `k ≥ dur`;
+2. pure process death (`n` = everything written): it yields the image of the **last** savepoint of the trace;
+3. the process dies while a regular checkpoint is storing records (after any number `j` of them): the next open yields
+   the image of that checkpoint's savepoint — for traces without `_oncopy` events (a `WBCOPY` record is not idempotent). -/
+theorem writer_recover_savepoint_partial (c : WCfg) (hc : c.Ok) (m : Bytes) (tr : List Step)
+    (hv : ValidTrace c (WalWriter.init m) tr) (hF26 : noForcedCheckpointInsideOp tr) :
+    let s := run c (WalWriter.init m) tr
+    (∀ n, s.fsynced ≤ n → n ≤ s.log.length →
+      ∃ k img, s.dur ≤ k ∧ s.hist[k]? = some img ∧ WalWriter.recover c (killCut s n) = (.ok, img, [])) ∧
+    (∃ img, s.hist[s.hist.length - 1]? = some img ∧ WalWriter.recover c (kill s) = (.ok, img, [])) ∧
+    (noCopy tr → ∀ ts j, WalWriter.recover c (killApplying c (ckptPrepare c s false ts) j) = (.ok, s.view, [])) := by
+  intro s
+  obtain ⟨g, base, marks, hi, hm, ha⟩ : ∃ g base marks, Inv c s g ∧ InvM c s g base marks ∧ (noCopy tr → AllAbs g) :=
+    run_inv3 c hc (noCopy tr) tr _ hv hF26 id
+      ⟨⟨[], []⟩, 0, [], Inv_init c m, InvM_init c m, fun _ => by intro y hy; simp at hy⟩
+  refine ⟨?_, ?_, ?_⟩
+  · intro n h1 h2
+    obtain ⟨k, img, a, b, d, _⟩ := kill_core c s g base marks hi hm n h1 h2
+    exact ⟨k, img, a, b, d⟩
+  · obtain ⟨k, img, _, b, d, e⟩ := kill_core c s g base marks hi hm s.log.length hi.fs (Nat.le_refl _)
+    refine ⟨img, by rw [← e rfl]; exact b, ?_⟩
+    have : killCut s s.log.length = kill s := by simp [killCut, kill]
+    rw [← this]; exact d
+  · intro hnc ts j
+    exact applying_core c hc s g hi (ha hnc) ts j
+
+open IwModel.WalWriter in
+/-- **What the forced checkpoint does (F26 on the model).**  In any state a valid trace reaches, a resize step leaves an
+empty log and a main file equal to the image the process sees — every record logged since the last savepoint
+included — while no savepoint was taken (`hist` unchanged).  A kill right after it recovers to that image. -/
+theorem forced_checkpoint_exposes_unsaved (c : WCfg) (hc : c.Ok) (m : Bytes) (tr : List Step) (hv : ValidTrace c (WalWriter.init m) tr)
+    (o n : Nat) (hr : Valid c (run c (WalWriter.init m) tr) (.resize o n)) :
+    let s := run c (WalWriter.init m) tr
+    let s' := step c s (.resize o n)
+    s'.log = [] ∧ s'.main = s'.view ∧ s'.view = (resize c.maxoff s.view n).getD s.view ∧ s'.hist = s.hist ∧
+    WalWriter.recover c (kill s') = (.ok, s'.view, []) := by
+  intro s s'
+  obtain ⟨g, hi⟩ : ∃ g, Inv c s g := run_inv c hc tr _ _ (Inv_init c m) hv
+  have h1 := (logResize_inv c hc s g o n hi hr).1
+  have h2 := (flush_inv c hc _ _ h1).1
+  have h3 := fsyncLog_inv c _ _ h2
+  have hb : (gflush c (logResize c s o n).buf (gwrite c s.buf g (Rec.resize o n, []) (encResize o n) [])).Lb = [] := by
+    apply gflush_Lb; intro hbuf; have hd := h1.w.bdec; rw [hbuf] at hd; exact Dec_nil hd
+  obtain ⟨_, f1, f2, f3, _, f5, _, _⟩ := ckptFinish_spec c _ _ h3 hb
+  have hs' : s' = ckptFinish c (fsyncLog (flush c (logResize c s o n))) := rfl
+  have r := flush_rest c (logResize c s o n)
+  have hview : (fsyncLog (flush c (logResize c s o n))).view = (resize c.maxoff s.view n).getD s.view := r.2.1
+  have hhist : (fsyncLog (flush c (logResize c s o n))).hist = s.hist := by
+    show (flush c (logResize c s o n)).hist = s.hist
+    rw [r.2.2.1]; exact (writeWl_rest c s (encResize o n) []).2.2.1
+  refine ⟨hs' ▸ f2, ?_, ?_, ?_, ?_⟩
+  · rw [hs', f1, f3]
+  · rw [hs', f3, hview]
+  · rw [hs', f5, hhist]
+  · have e1 : s'.log = [] := hs' ▸ f2
+    have e2 : s'.main = s'.view := by rw [hs', f1, f3]
+    simp [WalWriter.recover, kill, e1, e2, Wal.recover, rollforward]
+
+/-- **F26 on the model, a witness.** An 8-byte file, one store after the (initial) savepoint, then a growth of the file: a
+kill right after the forced checkpoint recovers to an image that starts with the unsaved bytes `1 2`, while the only
+savepoint image of the trace is the initial one. -/
+theorem forced_checkpoint_witness :
+    let s' := WalWriter.run C05.exW (WalWriter.init C05.exMain) [.write 0 [1, 2], .resize 8 4096]
+    s'.hist = [C05.exMain] ∧ ((WalWriter.recover C05.exW (WalWriter.kill s')).2.1.take 3 = [1, 2, 9]) ∧
+    (WalWriter.recover C05.exW (WalWriter.kill s')).1 = .ok ∧
+    WalWriter.ValidTrace C05.exW (WalWriter.init C05.exMain) [.write 0 [1, 2], .resize 8 4096] := by
+  refine ⟨by decide, by decide, by decide, by decide, by decide, trivial⟩
+
+/-- non-vacuity of the trace theorems: a valid trace without resize and copy steps (`C05.exW`: 60-byte buffer) -/
+def exTrace : List WalWriter.Step := [.set 2 7 3, .savepoint 1 true, .write 0 [1, 2], .flush]
+
+theorem exTrace_valid : WalWriter.ValidTrace C05.exW (WalWriter.init C05.exMain) exTrace :=
+  ⟨by decide, trivial, by decide, trivial, trivial⟩
+
+example : WalWriter.recover C05.exW (WalWriter.kill (WalWriter.run C05.exW (WalWriter.init C05.exMain) exTrace)) = (.ok, [9, 9, 7, 7, 7, 9, 9, 9], []) := by
+  decide
+
+example := writer_recover_savepoint_partial C05.exW C05.exW_ok C05.exMain exTrace exTrace_valid
+  (by intro e he o n; simp [exTrace] at he; rcases he with rfl | rfl | rfl | rfl <;> simp)
+
+example := checkpoint_preserves C05.exW C05.exW_ok C05.exMain exTrace exTrace_valid false 5
 
 end IwModel.C04
